@@ -724,7 +724,9 @@ pub fn run(a: &Args) {
     for ch in 0..chunks {
         let mut r = Rng::new(seed.wrapping_mul(1000003).wrapping_add(ch as u64));
         let exact = ch % 2 == 0;
-        let c = Conc::new(&mut r, exact);
+        // the first exact trace files pin the exponent of the dyadic X/Y values at both extremes (areas of 2^-80 and
+        // 2^80: ring roles are claimed for ANY non-zero area), the others draw it
+        let c = Conc::new_with(&mut r, exact, if exact { match ch { 0 => Some(-40), 2 => Some(40), _ => None } } else { None }, false);
         let mut meta = c.meta();
         meta["prop"] = json!(prop);
         meta["seed"] = json!(seed);
